@@ -373,6 +373,15 @@ class Unit:
         self.results.append(rec)
         return ok
 
+    def guard(self, name: str, ok: bool, fnq: str, detail: str):
+        """Vacuity guard (something was found / explored at all): holds, or leaves the unit UNDECIDED -- never a refutation, since 'nothing to
+        look at' says the contract lost its grip on the code, not that the code is wrong."""
+        if ok:
+            self.results.append({"name": f"{self.prop}.{name}", "function": fnq, "verdict": "discharged", "solver": "cover", "seconds": 0.0, "detail": detail})
+        else:
+            self.undecide(name, fnq, "vacuity: " + detail)
+        return ok
+
     def undecide(self, name: str, fnq: str, reason: str):
         self.results.append({"name": f"{self.prop}.{name}", "function": fnq, "verdict": "undecided", "solver": None,
                              "seconds": 0.0, "reason": reason})
